@@ -627,7 +627,11 @@ pub fn cache(attr: TokenStream, item: TokenStream) -> TokenStream {
 
     // Detect Result type
     let is_result = {
-        let s = quote!(#ret_type).to_string().replace(' ', "");
+        // `Result::<T, E>` (turbofish in type position) is the same type as `Result<T, E>`
+        let s = quote!(#ret_type)
+            .to_string()
+            .replace(' ', "")
+            .replace("::<", "<");
         s.starts_with("Result<")
             || s.starts_with("std::result::Result<")
             || s.starts_with("::std::result::Result<")
